@@ -141,3 +141,28 @@ UNITS.append(dict(name='C06.reload', props=['C06', 'C13'], kind='B', route='stub
                dict(name='bus_connections_reload_policy', file='bus/connection.c', status='stub', note='contract: rebuilds every completed connection\'s client policy from context->policy (the C06.create_client_policy unit covers the per-connection build)'),
                dict(name='bus_config_parser_*', file='bus/config-parser.c', status='assumed', note='config parsing is not under contract')],
     assumptions=['bus_connections_reload_policy rebuilds each client policy from context->policy as it is at the time of the call']))
+
+UNITS.append(dict(name='C06.policy_merge', props=['C06'], kind='P', route='stub', bus=True, entry='harness', defines=['VERIF_MODE=1'],
+    tus=[dict(file=POL, include_as='VERIF_TU')], harness='harness/c06_merge.c',
+    replace_calls={'append_copy_of_policy_list': 'verif_stub_append_copy', 'merge_id_hash': 'verif_stub_merge_id_hash'}, timeout=300, expect_s=5,
+    must_have=['merge.post1', 'merge.post2', 'merge.post3'],
+    functions=[dict(name='bus_policy_merge', file=POL, status='enforced', contract='TRUE => all six contexts of the included policy absorbed, each once, into the same context; FALSE iff a step failed'),
+               dict(name='append_copy_of_policy_list', file=POL, status='replaced', note='contract checked (B) by C06.policy_merge.list'),
+               dict(name='merge_id_hash', file=POL, status='replaced', note='contract checked (B) by C06.policy_merge.idhash')],
+    assumptions=[]))
+UNITS.append(dict(name='C06.policy_merge.idhash', props=['C06'], kind='B', route='stub', bus=True, entry='harness', defines=['VERIF_MODE=2'],
+    tus=[dict(file=POL, include_as='VERIF_TU')], harness='harness/c06_merge.c', unwind=4,
+    replace_calls={'append_copy_of_policy_list': 'verif_stub_append_copy', 'get_list': 'verif_stub_get_list'}, timeout=300, expect_s=5, bounds={'ids in the absorbed table': 2},
+    must_have=['idhash.post1', 'idhash.post3'],
+    functions=[dict(name='merge_id_hash', file=POL, status='bounded', contract='every id of the absorbed table merged once into the destination list of the same id'),
+               dict(name='get_list, _dbus_hash_iter_*', file=POL + ', dbus/dbus-hash.c', status='stub', note='ghost table of <= 2 ids; get_list may fail (OOM)')],
+    assumptions=['<= 2 ids (bound)']))
+for _ns, _nd in ((0, 1), (1, 0), (2, 1), (1, 2), (2, 2)):
+    UNITS.append(dict(name='C06.policy_merge.list.s%d_d%d' % (_ns, _nd), props=['C06', 'C14'], kind='B', route='plain', bus=True, entry='harness', defines=['VERIF_MODE=3', 'VERIF_NS=%d' % _ns, 'VERIF_ND=%d' % _nd],
+        tus=[dict(file=POL, include_as='VERIF_TU'), dict(file='dbus/dbus-list.c')], harness='harness/c06_merge.c', unwind=7,
+        replace_calls={'alloc_link': 'verif_alloc_link', 'free_link': 'verif_free_link'}, timeout=600, expect_s=60, bounds={'source rules': _ns, 'destination rules': _nd},
+        must_have=['copy.post1', 'copy.post3', 'copy.post5'],
+        functions=[dict(name='append_copy_of_policy_list', file=POL, status='bounded', contract='TRUE => old destination + source rules in order, one more reference each; FALSE => nothing changed; source untouched'),
+                   dict(name='_dbus_list_append/_pop_first_link/_append_link/_clear', file='dbus/dbus-list.c', status='bounded', note='real pointer code'),
+                   dict(name='alloc_link/free_link', file='dbus/dbus-list.c', status='stub', note='pool, may fail')],
+        assumptions=['source of %d and destination of %d rules (bound)' % (_ns, _nd)]))
